@@ -55,4 +55,6 @@ def run(c, prog):
     C01_alg.run(a, prog)
     C01_rot.run(a, prog)
     C01_arm.run(a, prog)
+    from . import C03_gram
+    C03_gram.run(c, prog)
     c.not_decided += ["acceptance by an independent decoder (a run)", "PRNT order / exactly-once for every tree shape", "lz4/zstd length fields vs compressed payload (third party)"]
